@@ -81,6 +81,9 @@ pub enum TickResult {
     Violation { kind: String, with_panic: bool },
     /// commit unwound with some other panic
     Panic(String),
+    /// (delta_validate builds only) the repository's in-crate delta/accumulator validator panicked;
+    /// treated as a monitor event, not as an oracle (DESIGN 4.6)
+    ValidatorDisagreement(String),
 }
 
 pub struct TickObs {
@@ -170,7 +173,11 @@ pub fn run_tick(spec: &StateSpec, cands: &[Cand], arrival: &[usize], cfg: &Engin
             } else if let Some(v) = payload.downcast_ref::<FootprintViolationWithPanic>() {
                 TickResult::Violation { kind: format!("{:?}", v.violation.kind), with_panic: true }
             } else if let Some(s) = payload.downcast_ref::<String>() {
-                TickResult::Panic(s.clone())
+                if cfg!(feature = "delta_validate") && (s.contains("DELTA MISMATCH") || s.contains("state_root mismatch")) {
+                    TickResult::ValidatorDisagreement(s.lines().take(3).collect::<Vec<_>>().join(" "))
+                } else {
+                    TickResult::Panic(s.clone())
+                }
             } else if let Some(s) = payload.downcast_ref::<&str>() {
                 TickResult::Panic((*s).to_owned())
             } else {
